@@ -288,7 +288,7 @@ class DenseOutput(object):
 
     def remove_interpolant(self, idx):
         out = self.t_eval.pop(idx), self.y_interpolants.pop(idx)
-        self.__t_eval_arr = D.ar_numpy.stack(self.t_eval)
+        self.__t_eval_arr_stale = True
         return out
 
     def __len__(self):
@@ -1071,6 +1071,9 @@ class OdeSystem(object):
                                     self.__events.append(ev_state)
 
                         if end_int:
+                            # the step is rolled back and re-taken up to the event: its interpolant must not stay in the dense output
+                            for __rolled_back_interp in (__y_interp if isinstance(__y_interp, list) else [__y_interp]):
+                                self.__sol.remove_interpolant(self.__sol.y_interpolants.index(__rolled_back_interp))
                             self.integrate(roots[-1])
                             self.__int_status = 2
                         else:
